@@ -924,10 +924,124 @@ SEGS["law"] = (law_parts, law_cases, chk_law)
 
 
 # ------------------------------------------------------------------------------------
+# comparisons with odd operands: ==/!= are total, ordering gives bool or TypeError
+# ------------------------------------------------------------------------------------
+ODD_FIXED = ["None", "0", "1", "-1", "2**32", "2**128", "1.5", "()", "[]", "{}", "object()", "(0,)*4", "[0]*6", "[0]*16", "(0,)*5",
+             "bytearray()", "bytearray(4)", "bytearray(6)", "bytearray(16)", "bytearray(5)", "True", "float('nan')", "set()", "type",
+             "' '", "'x'", "'not an address'", "'g::1'", "'1:2'", "'1::2::3'", "'1.2.3.4.5'", "'300.1.1.1'", "'aa:bb:cc:dd:ee'", "'::/0'",
+             "'zz:zz:zz:zz:zz:zz'", "'12345::'", "':1:2:3:4:5:6:7'", "'1:2:3:4:5:6:7:'", "'1.2.3.4'", "'::1'", "'00:00:00:00:00:00'",
+             "'0.0.0.0'", "'::'", "'\\x00'", "'\\u0663'", "'\\n'", "'0/0'", "'-'", "'--'", "'-:'", "' :'", "'/'"]
+
+def odd_operands ():
+  out = list(ODD_FIXED)
+  for n in range(0, 5):
+    for tup in itertools.product(":.0g", repeat=n):
+      s = "".join(tup)
+      out.append(repr(s)); out.append(repr(s.encode()))
+  for n in list(range(1, 21)) + [32]:
+    out.append("bytes(range(1, %d))" % (n + 1))
+  return out
+
+ODD_ADDR = (0, 14, 26, 38)       # indices into the 40-element comparison set (value i//2)
+
+def odd_parts (th):
+  return [[t, i] for t in LAW_TYPES for i in ODD_ADDR]
+
+def odd_cases (part, th):
+  for x in odd_operands():
+    yield ["odd", part[0], part[1], x]
+  yield ["odd", part[0], part[1], "<own-text>"]
+
+_HEX = "0123456789abcdefABCDEF"
+
+def may_represent (t, x):
+  """Conservative reference: could x be a representation of an address of type t?  Only a
+  definite 'no' obliges == to be False (equality with convertible values is not judged)."""
+  if isinstance(x, bool): return t == "IPAddr"
+  if t == "IPAddr":
+    if isinstance(x, int): return True
+    if isinstance(x, (bytes, bytearray)):
+      if len(x) == 4: return True
+      try: x = bytes(x).decode()
+      except Exception: return False
+    if isinstance(x, str):
+      return any(c in "0123456789" for c in x) and all(c in _HEX + "xX. \t\n\r\v\f" or not c.isascii() for c in x.split(" ")[0] or " ")
+    return False
+  if t == "EthAddr":
+    if isinstance(x, str):
+      try: x = x.encode()
+      except Exception: return False
+    if isinstance(x, (bytes, bytearray)):
+      if len(x) == 6: return True
+      if isinstance(x, bytearray): return False
+      return len(x) >= 11 and all(chr(c) in _HEX + ":-" for c in x)
+    if isinstance(x, (list, tuple)):
+      return len(x) == 6 and all(isinstance(v, int) and 0 <= v <= 255 for v in x)
+    return False
+  if isinstance(x, str): return R.v6_parse(x) is not None
+  if isinstance(x, (bytes, bytearray)):
+    if len(x) == 16: return True
+    try: return R.v6_parse(bytes(x).decode()) is not None
+    except Exception: return False
+  return False
+
+def _ord (k, t, desc, f):
+  """An ordering comparison gives a bool, or refuses with TypeError."""
+  k.calls += 1; k.evals += 1
+  try:
+    r = f()
+  except TypeError:
+    return "TypeError"
+  except Exception as e:
+    k.bad("compare-odd:ordering-raises:%s:%s" % (site(e), t), "%s raised %s: %s (only TypeError is a refusal)" % (desc, type(e).__name__, e))
+    return "!" + type(e).__name__
+  if type(r) is not bool:
+    k.bad("compare:non-bool-result:" + t, "%s returned %r" % (desc, r))
+  return r
+
+def chk_odd (case, k):
+  t, idx, expr = case[1], case[2], case[3]
+  a, ra = law_elem(t, idx)
+  own = expr == "<own-text>"
+  x = str(a) if own else eval(expr, {"__builtins__": {}}, dict(bytes=bytes, bytearray=bytearray, range=range, object=object, float=float, set=set, type=type))
+  d = "a=%r, x=%s" % (a, "its own text %r" % x if own else expr)
+  eq = _cmp(k, "eq", t, "a == x for " + d, lambda: a == x)
+  ne = _cmp(k, "ne", t, "a != x for " + d, lambda: a != x)
+  req = _cmp(k, "eq", t, "x == a for " + d, lambda: x == a)
+  rne = _cmp(k, "ne", t, "x != a for " + d, lambda: x != a)
+  k.evals += 4
+  res = [eq, ne, req, rne]
+  if None not in res:
+    if ne != (not eq) or rne != (not req):
+      k.bad("compare-odd:ne-negation:" + t, "(a==x, a!=x, x==a, x!=a) = %r for %s" % ((eq, ne, req, rne), d))
+    if eq != req:
+      k.bad("compare-odd:reflected:" + t, "(a == x) is %s but (x == a) is %s for %s" % (eq, req, d))
+    if own:
+      if not eq: k.bad("compare-odd:own-text:" + t, "%r does not compare equal to its own text %r" % (a, x))
+    elif eq and not may_represent(t, x):
+      k.bad("compare-odd:eq-invalid-operand:" + t, "a == x is True although x is not a representation of any %s, for %s" % (t, d))
+    # membership / counting use ==
+    k.evals += 2; k.calls += 2
+    try:
+      inn = a in [x, a]; cnt = [x].count(a)
+      if inn is not True or cnt != (1 if req else 0):
+        k.bad("compare-odd:container:" + t, "(a in [x, a], [x].count(a)) = %r with (x == a) = %s, for %s" % ((inn, cnt), req, d))
+      res += [inn, cnt]
+    except Exception as e:
+      k.bad("compare:raises:%s:%s" % (site(e), t), "a in [x, a] / [x].count(a) raised %s: %s for %s" % (type(e).__name__, e, d))
+  for name, f in (("a < x", lambda: a < x), ("a <= x", lambda: a <= x), ("a > x", lambda: a > x), ("a >= x", lambda: a >= x),
+                  ("x < a", lambda: x < a), ("x <= a", lambda: x <= a), ("x > a", lambda: x > a), ("x >= a", lambda: x >= a)):
+    res.append(_ord(k, t, "%s for %s" % (name, d), f))
+  k.obs.append(res)
+
+SEGS["odd"] = (odd_parts, odd_cases, chk_odd)
+
+
+# ------------------------------------------------------------------------------------
 # driver
 # ------------------------------------------------------------------------------------
 COARSE = ("v4net", "v6net")     # outcome digests of these segments omit the address-specific values (memory)
-SEG_ORDER = ["v4ctor", "v4net", "v6val", "v6net", "v6text", "bad", "eth", "dpid", "law"]
+SEG_ORDER = ["v4ctor", "v4net", "v6val", "v6net", "v6text", "bad", "eth", "dpid", "law", "odd"]
 
 def _worker (item):
   seg, part, th = item
@@ -974,7 +1088,7 @@ def run (cfg):
     "option combinations and re-parse, well-known ranges} and x all 129 prefix lengths x {in_network in 5 call forms, other networks, parse_cidr, mask conversions}; "
     "IPv6 text grammar: every string of 0..9 groups over %s with '::' at each position or absent, with and without an IPv4 tail (accept/reject and value vs "
     "ipaddress); enumerated malformed texts / lengths / types for all three address types, CIDR strings and dpids (must raise); EthAddr: %s x 13 textual/binary "
-    "forms + short-group form, all flag predicates; dpid: every id with bytes in %s, 4 printers x 5 accepted spellings; comparison laws over all ordered pairs "
+    "forms + short-group form, all flag predicates; dpid: every id with bytes in %s, 4 printers x 5 accepted spellings; comparison with odd operands: 4 addresses per type x ~750 operands (None, ints, float, empty/wrong-length containers, bytes of length 0..20, every str and bytes of length 0..4 over {:,.,0,g}, junk texts, own text) x {==, !=, <, <=, >, >= in both operand orders, in, count}; comparison laws over all ordered pairs "
     "and triples of a 40-element set (20 values x 2 construction forms) per type, ==None, setattr, container behaviour. distinct = digests of the per-case "
     "observation vectors"
     % (len(OCT_T_CTOR if th else OCT_Q), (OCT_T_CTOR if th else OCT_Q), (OCT_T_NET if th else OCT_Q),
@@ -992,6 +1106,7 @@ def run (cfg):
     "forms that inet_aton accepts by tradition (fewer than 4 parts, octal/hex parts) are not called malformed for IPv4 text; they are for the dotted tail of IPv6 text (RFC 4291 requires d.d.d.d)",
     "cross-type equality (address == str/int/other family) is a documented convenience and not judged; == None is judged",
     "ordering is only required to be a total order consistent with ==; numeric order of IPAddr is not demanded",
+    "== / != with any operand never raise and are each other's negation; == must be False only for operands that cannot represent an address of the type (conservative reference); ordering against a foreign operand may give a bool or raise TypeError, nothing else; which exception type a constructor uses to reject malformed input is not judged",
     "pox's short-group Ethernet text (x:x:x:x:x:x) is judged for value only when accepted",
   ]
   return rep
